@@ -65,7 +65,26 @@ TABLE = {   # Table 1 of arXiv:1607.06292: (zeta_u, zeta_d, zeta_l) as functions
 def table_value(kind, tb):
     return 1 / tb if kind == 'cot' else -tb
 
-@obligation('C09.zeta_table', fns=[(TH, 'THDM::get_zeta_u'), (TH, 'THDM::get_zeta_d'), (TH, 'THDM::get_zeta_l')])
+def replay_zeta(model, wd):
+    """real THDM::get_zeta_f() for the Yukawa type named in the failed goal, at the counterexample's VEVs and stored zeta_f, against Table 1"""
+    from gm2v import fidelity
+    goal = (model or {}).get('_goal', '')
+    parts = goal.split('.')
+    tname, getter = (parts[2], parts[3]) if len(parts) > 3 else ('type_2', 'zeta_l')
+    code = {'type_1': 1, 'type_2': 2, 'type_X': 3, 'type_Y': 4, 'aligned': 5, 'general': 6}.get(tname, 2)
+    f = dict((model or {}).get('_float', {}))
+    vals = {k: v for k, v in f.items()}
+    vals.setdefault('v1', 100.0); vals.setdefault('v2', 225.0)
+    out, n = fidelity.native_model_eval(wd, 'THDM', vals, ['m.get_%s()' % getter], pre_stmts='   m.yukawa_type = static_cast<gm2calc::thdm::Yukawa_type>(%d);' % code)
+    viol = (model or {}).get('_violated_equality') or {}
+    want = viol.get('contract_side')
+    real = out[0] if out else None
+    if want is None or not isinstance(real, float):
+        return None, 'real get_%s() = %r; the verifier gave no evaluated equality' % (getter, real)
+    return abs(real - want) > 1e-9 * max(abs(real), abs(want), 1e-300), 'real THDM(%s).get_%s() = %r at v1=%r v2=%r; Table 1 of arXiv:1607.06292 demands %r' % (
+        tname, getter, real, vals.get('v1'), vals.get('v2'), want)
+
+@obligation('C09.zeta_table', replay=replay_zeta, fns=[(TH, 'THDM::get_zeta_u'), (TH, 'THDM::get_zeta_d'), (TH, 'THDM::get_zeta_l')])
 def _(ctx):
     """get_zeta_f() == Table 1 of arXiv:1607.06292 for types I, II, X, Y (functions of tan beta only); == the stored zeta_f for the
     aligned type; == 0 for the general type (where zeta_f is documented as ignored)"""
